@@ -98,8 +98,11 @@ def make_cases(rng, n_cases, nmax):
             if len(cand) < 2:
                 cand = sigports
             first, second = [p[0] for p in rng.sample(cand, 2)]
-        cases.append({"unit": unit, "gen": gen, "n": n, "first": first, "second": second, "by": rng.choice(["name", "name", "signal"]),
-                      "pre_elab": "design" in unit and rng.random() < 0.3})
+        cases.append({"unit": unit, "gen": gen, "n": n, "first": first, "second": second,
+                      "by": rng.choice(["name", "name", "signal", "signal_name", "name_signal"]),
+                      "pre_elab": "design" in unit and rng.random() < 0.3,
+                      # the unit may itself be what a generator returned
+                      "unit_generated": "design" in unit and rng.random() < 0.3})
     return cases
 
 
@@ -129,6 +132,14 @@ def impl_builtin(case):
             u = leaf_unit(unit["leaf"])
         else:
             u = build.build(unit["design"], "proc").top
+            if case.get("unit_generated"):
+                built = u
+
+                def unit_gen(p: h.HasNoParams) -> h.Module:
+                    return built
+
+                unit_gen.__name__ = "UnitGen"
+                u = h.generator(unit_gen)()
         if case.get("pre_elab"):
             h.elaborate(u)
     except Exception as ex:  # noqa
@@ -139,10 +150,8 @@ def impl_builtin(case):
         elif case["gen"] == "MosStack":
             m = MosStack(unit=u, nser=case["n"])
         else:
-            if case["by"] == "signal":
-                conns = (u.ports[case["first"]], u.ports[case["second"]])
-            else:
-                conns = (case["first"], case["second"])
+            pick = {"signal": (True, True), "name": (False, False), "signal_name": (True, False), "name_signal": (False, True)}[case["by"]]
+            conns = tuple((u.ports[nm] if as_sig else nm) for nm, as_sig in zip((case["first"], case["second"]), pick))
             m = Series(unit=u, nser=case["n"], conns=conns)
     except Exception as ex:  # noqa
         return {"refused": common.errstr(ex)}
@@ -337,6 +346,12 @@ def corpus():
         out.append({"unit": {"design": copy.deepcopy(u)}, "gen": "Series", "n": 3, "first": "a", "second": "b", "by": "name", "pre_elab": pre})
     out.append({"unit": {"leaf": copy.deepcopy(E_CLASH)}, "gen": "Series", "n": 3, "first": "i", "second": "o", "by": "name", "pre_elab": False})
     out.append({"unit": {"leaf": copy.deepcopy(E_CLASH)}, "gen": "Wrapper", "n": 1, "first": "i", "second": "o", "by": "name", "pre_elab": False})
+    # the series pair given half by Signal, half by name; a unit that a generator returned, wrapped once
+    for by in ("signal_name", "name_signal"):
+        out.append({"unit": {"leaf": copy.deepcopy(gen_design.LEAVES[3])}, "gen": "Series", "n": 3, "first": "p", "second": "n", "by": by, "pre_elab": False})
+        out.append({"unit": {"design": copy.deepcopy(u)}, "gen": "Series", "n": 2, "first": "b", "second": "a", "by": by, "pre_elab": False})
+    for gen, n in (("Series", 1), ("Wrapper", 1), ("Series", 2)):
+        out.append({"unit": {"design": copy.deepcopy(u)}, "gen": gen, "n": n, "first": "a", "second": "b", "by": "name", "pre_elab": False, "unit_generated": True})
     # more than ten units (units_10 sorts before units_2), over a primitive and over a module
     out.append({"unit": {"leaf": copy.deepcopy(gen_design.LEAVES[3])}, "gen": "Series", "n": 12, "first": "p", "second": "n", "by": "name", "pre_elab": False})
     out.append({"unit": {"leaf": copy.deepcopy(gen_design.LEAVES[5])}, "gen": "MosStack", "n": 11, "first": "d", "second": "s", "by": "name", "pre_elab": False})
